@@ -428,6 +428,97 @@ func (net *vpKNet) CustodianUpdate(prev *common.VersionedTransaction, from int, 
 	return signed.AsVersioned()
 }
 
+// NodePledge builds a node-pledge transaction: spends output 0 of prev (XIN,
+// exactly the pledge amount, owned by account from) into one NodePledge output;
+// extra = signer public spend key || payee public spend key; references the
+// last consensus transaction.
+func (net *vpKNet) NodePledge(prev *common.VersionedTransaction, from int, signer, payee common.Address, lastConsensus crypto.Hash) *common.VersionedTransaction {
+	tx := common.NewTransactionV5(common.XINAssetId)
+	tx.AddInput(prev.PayloadHash(), 0)
+	tx.AddOutputWithType(common.OutputTypeNodePledge, nil, common.Script{}, prev.Outputs[0].Amount, []byte{})
+	tx.Extra = append(append([]byte{}, signer.PublicSpendKey[:]...), payee.PublicSpendKey[:]...)
+	tx.References = []crypto.Hash{lastConsensus}
+	signed := &common.SignedTransaction{Transaction: *tx}
+	msg := tx.AsVersioned().PayloadHash()
+	po := prev.Outputs[0]
+	priv := crypto.DeriveGhostPrivateKey(&po.Mask, &net.Accts[from].PrivateViewKey, &net.Accts[from].PrivateSpendKey, 0)
+	s := priv.Sign(msg)
+	signed.SignaturesMap = []map[uint16]*crypto.Signature{{0: &s}}
+	return signed.AsVersioned()
+}
+
+// NodeAccept builds the node-accept transaction of a pledge the way
+// kernel/election.go:buildNodeAcceptTransaction does, signed by the pledged
+// signer key (tryToSendAcceptTransaction).
+func (net *vpKNet) NodeAccept(pledge *common.VersionedTransaction, signer common.Address, lastConsensus crypto.Hash) *common.VersionedTransaction {
+	tx := common.NewTransactionV5(common.XINAssetId)
+	tx.AddInput(pledge.PayloadHash(), 0)
+	tx.AddOutputWithType(common.OutputTypeNodeAccept, nil, common.Script{}, pledge.Outputs[0].Amount, []byte{})
+	tx.Extra = append([]byte{}, pledge.Extra...)
+	tx.References = []crypto.Hash{lastConsensus}
+	ver := tx.AsVersioned()
+	sig := signer.PrivateSpendKey.Sign(ver.PayloadHash())
+	ver.SignaturesMap = []map[uint16]*crypto.Signature{{0: &sig}}
+	return ver
+}
+
+// NodeRemove builds the (unsigned) node-remove transaction of an accepted node
+// the way kernel/election.go:buildNodeRemoveTransaction does; accept is the
+// node's accept (or genesis) transaction, signer/payee its recorded addresses.
+func (net *vpKNet) NodeRemove(accept *common.VersionedTransaction, signer, payee common.Address, lastConsensus crypto.Hash) *common.VersionedTransaction {
+	tx := common.NewTransactionV5(common.XINAssetId)
+	tx.AddInput(accept.PayloadHash(), 0)
+	tx.Extra = append([]byte{}, accept.Extra...)
+	in := fmt.Sprintf("NODEREMOVE%s", signer.String())
+	si := crypto.Blake3Hash([]byte(payee.String() + in))
+	seed := append(si[:], si[:]...)
+	tx.AddOutputWithType(common.OutputTypeNodeRemove, []*common.Address{&payee}, common.NewThresholdScript(1), accept.Outputs[0].Amount, seed)
+	tx.References = []crypto.Hash{lastConsensus}
+	return tx.AsVersioned()
+}
+
+// InitialSnapshot prepares the uncertified round-0 snapshot that carries the
+// accept transaction on the pledged node's own chain.
+func (k *vpKNode) InitialSnapshot(nodeId crypto.Hash, tx crypto.Hash, ts uint64) *common.Snapshot {
+	s := &common.Snapshot{Version: common.SnapshotVersionCommonEncoding, NodeId: nodeId, Timestamp: ts}
+	s.AddTransaction(tx)
+	return s
+}
+
+// CertifyRot is Certify with the signer selection rotated: threshold+extra
+// members are taken from the key vector starting at position rot (wrapping),
+// so that late positions (a freshly accepted node) get to co-sign.
+func (k *vpKNode) CertifyRot(s *common.Snapshot, extra, rot int) {
+	chain := k.Node.getOrCreateChain(s.NodeId)
+	s.Hash = s.PayloadHash()
+	_, publics := chain.ConsensusKeys(s.RoundNumber, s.Timestamp)
+	want := k.Node.ConsensusThreshold(s.Timestamp, true) + extra
+	if want > len(publics) {
+		want = len(publics)
+	}
+	sum := edwards25519.NewScalar()
+	var mask uint64
+	cnt := 0
+	for j := 0; j < len(publics) && cnt < want; j++ {
+		i := (j + rot) % len(publics)
+		a := k.Net.byPublic[*publics[i]]
+		if a == nil {
+			continue
+		}
+		sc, err := edwards25519.NewScalar().SetCanonicalBytes(a.PrivateSpendKey[:])
+		if err != nil {
+			panic(err)
+		}
+		sum.Add(sum, sc)
+		mask |= 1 << uint(i)
+		cnt++
+	}
+	var agg crypto.Key
+	copy(agg[:], sum.Bytes())
+	sig := agg.Sign(s.Hash)
+	s.Signature = &crypto.CosiSignature{Mask: mask, Signature: sig}
+}
+
 // ---------------------------------------------------------------------------
 // snapshots and certificates
 
